@@ -106,6 +106,7 @@ def main():
     if tier not in ('quick', 'thorough'):
         print('HARNESS-ERROR property=%s unknown tier %r (quick | thorough)' % (pid, tier))
         sys.exit(2)
+    os.environ['VERIF_TIER_RUNNING'] = tier
     res = common.Result(pid, tier)
     # watchdog: a library call that never returns (a loop that no longer terminates) must not hang the check for ever.
     # When the budget is spent the main thread is interrupted; if it is then executing code of the package under test the
